@@ -85,9 +85,19 @@ def run(rep, ctx):
                       {'kind': 'S' if is_s else 'M', 'input': fc, 'failed_sub_checks': sc[0], 'stale_report': 'generate_report is first run in the same directory on a map with 60 files for every pattern', 'theorem': 'report_entries_exact',
                        'n_failing': len(stale_bad)}, no_input=not is_s)
     if file_mismatch and not found:
-        rep.violation('generate_report (file written) differs from the concatenation of the three generators that the model describes',
-                      {'kind': 'M', 'input': file_mismatch[0], 'model_function': 'Report.generate_report',
-                       'rust_function': 'report::generation::generate_report'}, no_input=True)
+        # generate_report (the file written) is not the concatenation of the three generators: the reader is evaluated on the file
+        c = max(file_mismatch, key=lambda c0: sum(len(v) for m in c0['maps'].values() for p, v in m))
+        fc = dict(c)
+        fc['mode'] = 'allfile'
+        fc['dir'] = d
+        so, sc = rc.evaluate(ctx, [fc], 'file-c11')
+        shutil.rmtree(d, ignore_errors=True)
+        is_s = bool(set(sc[0]) & S_CODES)
+        found = found or is_s
+        rep.violation('generate_report (file written) differs from the concatenation of the three generators that the model describes'
+                      + (': the file does not list exactly the findings' if is_s else ''),
+                      {'kind': 'S' if is_s else 'M', 'input': fc, 'failed_sub_checks': sc[0], 'model_function': 'Report.generate_report',
+                       'rust_function': 'report::generation::generate_report', 'n_failing': len(file_mismatch)}, no_input=not is_s)
     common.finish_proof_status(rep, ctx, found)
 
 
